@@ -35,6 +35,8 @@ type cmpEnv struct {
 	alias   map[types.Object]ast.Expr // iVal := i.Sort[x]
 	flagArr map[types.Object]string   // parameter object -> "scoring"/"desc"
 	rangeOf types.Object              // the `so` receiver being ranged
+	funcs   map[*types.Func]*ast.FuncDecl // same-package functions, for helper calls
+	depth   int
 }
 
 type ctrl int
@@ -100,8 +102,86 @@ func (e *cmpEnv) intOf(x ast.Expr) (int, bool) {
 			v, ok := e.intOf(y.X)
 			return -v, ok
 		}
+	case *ast.CallExpr:
+		return e.call(y)
 	}
 	return 0, false
+}
+
+// call evaluates a helper of the same package (a three-way compare extracted
+// from the comparator): parameters are bound to the caller's argument
+// expressions (field pairs) or integer values.
+func (e *cmpEnv) call(c *ast.CallExpr) (int, bool) {
+	f := callee(e.info, c)
+	if f == nil || e.funcs[f] == nil || e.depth > 4 {
+		return 0, false
+	}
+	fd := e.funcs[f]
+	if fd.Body == nil || fd.Recv != nil {
+		return 0, false
+	}
+	k := 0
+	savedInts, savedAlias := map[types.Object]int{}, map[types.Object]ast.Expr{}
+	var bound []types.Object
+	for _, fl := range fd.Type.Params.List {
+		for _, nm := range fl.Names {
+			if k >= len(c.Args) {
+				return 0, false
+			}
+			po := e.info.Defs[nm]
+			arg := c.Args[k]
+			k++
+			if po == nil {
+				continue
+			}
+			bound = append(bound, po)
+			if v, ok := e.ints[po]; ok {
+				savedInts[po] = v
+			}
+			if a, ok := e.alias[po]; ok {
+				savedAlias[po] = a
+			}
+			delete(e.ints, po)
+			delete(e.alias, po)
+			if v, ok := e.intOf(arg); ok {
+				e.ints[po] = v
+			} else if _, _, _, ok := e.side(arg); ok {
+				// resolve through the caller's aliases now, so that the binding does not depend on the callee's names
+				res := arg
+				for hop := 0; hop < 4; hop++ {
+					id, isID := ast.Unparen(res).(*ast.Ident)
+					if !isID {
+						break
+					}
+					a, has := e.alias[e.info.ObjectOf(id)]
+					if !has {
+						break
+					}
+					res = a
+				}
+				e.alias[po] = res
+			} else {
+				return 0, false
+			}
+		}
+	}
+	e.depth++
+	ctl, v := e.exec(fd.Body.List)
+	e.depth--
+	for _, po := range bound {
+		delete(e.ints, po)
+		delete(e.alias, po)
+		if sv, ok := savedInts[po]; ok {
+			e.ints[po] = sv
+		}
+		if sa, ok := savedAlias[po]; ok {
+			e.alias[po] = sa
+		}
+	}
+	if ctl != ctrlReturn {
+		return 0, false
+	}
+	return v, true
 }
 
 func applyRel(op token.Token, r rel) bool {
@@ -257,7 +337,60 @@ func (e *cmpEnv) stmt(s ast.Stmt) (ctrl, int) {
 			}
 		}
 		return ctrlNext, 0
-	case *ast.DeclStmt, *ast.EmptyStmt:
+	case *ast.SwitchStmt:
+		if x.Tag != nil {
+			e.fail("tagged switch not understood")
+		}
+		if x.Init != nil {
+			if c, v := e.stmt(x.Init); c != ctrlNext {
+				return c, v
+			}
+		}
+		var deflt *ast.CaseClause
+		for _, cs := range x.Body.List {
+			cc := cs.(*ast.CaseClause)
+			if cc.List == nil {
+				deflt = cc
+				continue
+			}
+			hit := false
+			for _, cond := range cc.List {
+				if e.boolOf(cond) {
+					hit = true
+				}
+			}
+			if hit {
+				c, v := e.exec(cc.Body)
+				if c == ctrlBreak {
+					return ctrlNext, 0
+				}
+				return c, v
+			}
+		}
+		if deflt != nil {
+			c, v := e.exec(deflt.Body)
+			if c == ctrlBreak {
+				return ctrlNext, 0
+			}
+			return c, v
+		}
+		return ctrlNext, 0
+	case *ast.DeclStmt:
+		if gd, ok := x.Decl.(*ast.GenDecl); ok {
+			for _, sp := range gd.Specs {
+				if vs, ok := sp.(*ast.ValueSpec); ok && len(vs.Values) == 0 {
+					for _, nm := range vs.Names {
+						if o := e.info.Defs[nm]; o != nil {
+							if b, ok := o.Type().Underlying().(*types.Basic); ok && b.Info()&types.IsInteger != 0 {
+								e.ints[o] = 0
+							}
+						}
+					}
+				}
+			}
+		}
+		return ctrlNext, 0
+	case *ast.EmptyStmt:
 		return ctrlNext, 0
 	}
 	e.fail("statement %T not understood", s)
@@ -329,7 +462,21 @@ func runComparator(fi *FuncInfo, nkeys int, scoring, desc []bool, score rel, key
 	if sig.Recv() != nil {
 		e.rangeOf = recvObj(fi)
 	}
-	c, v := e.exec(fi.Decl.Body.List)
+	e.funcs = map[*types.Func]*ast.FuncDecl{}
+	for _, file := range fi.Pkg.Syntax {
+		for _, d := range file.Decls {
+			if fd, ok := d.(*ast.FuncDecl); ok {
+				if fo, ok := info.Defs[fd.Name].(*types.Func); ok {
+					e.funcs[fo] = fd
+				}
+			}
+		}
+	}
+	decl := fi.Decl
+	if fi.OrigDecl != nil {
+		decl = fi.OrigDecl // helper calls are evaluated, not expanded (the expansion uses goto)
+	}
+	c, v := e.exec(decl.Body.List)
 	if c != ctrlReturn {
 		return 0, "comparator falls off its end"
 	}
